@@ -37,7 +37,7 @@ UNIT_TIMEOUT = {"quick": 200, "thorough": 600}
 # In both the patched name is not in the owner's own __dict__ before the patch and must not be afterwards.
 TARGETS = ["fn", "meth", "cmeth", "smeth", "const", "sub_meth", "sub_cmeth", "sub_smeth", "inst_meth"]
 ABSENT = object()
-REPLS = ["default", "function", "bound", "callable_obj", "explicit_mock", "new_callable", "noncallable", "classmethod_fn", "staticmethod_fn", "spec_set", "new_callable_fn", "new_callable_bound", "new_callable_obj", "frozen_type"]
+REPLS = ["default", "function", "bound", "callable_obj", "explicit_mock", "new_callable", "noncallable", "classmethod_fn", "staticmethod_fn", "spec_set", "new_callable_fn", "new_callable_bound", "new_callable_obj", "frozen_type", "asynq_fn"]
 ACTS = ["with", "decorator", "classdeco", "startstop"]
 EXITS = ["normal", "exception", "stopall"]
 COMPS = ["single", "nested", "nested_same_replacement", "sequential", "same_patcher_again", "nested_stopall"]
@@ -175,6 +175,17 @@ def make_replacement(kind, rec):
             return result_for(len(args))
 
         return {"new": new}, None
+    if kind == "asynq_fn":
+        # the replacement is itself an asynq function with a generator body (a fake that awaits other fakes)
+        from asynq import asynq as A, ConstFuture
+
+        @A()
+        def new(*args, **kwargs):
+            rec.calls.append((args, tuple(sorted(kwargs.items()))))
+            yield ConstFuture(None)
+            return result_for(len(args))
+
+        return {"new": new}, None
     if kind == "bound":
         return {"new": rec.method}, None
     if kind == "callable_obj":
@@ -292,6 +303,11 @@ def check_inside_one(get, entered, rec, repl, target, viol, via):
         # ... and the same through async_call, which awaits the target's .asyncio() inside asyncio mode
         ("yield async_call.asynq() from a task run by asyncio", lambda: asyncio.run(ac_yielder.asyncio(get(), given[0], given[1]))),
     ]
+    if repl == "asynq_fn":
+        # an asynq function given as replacement is not one of the statement's replacement kinds; it is held to the
+        # statement's four conventions only (reached from a task that an event loop drives, its synchronous call
+        # is refused - DESIGN.md 9.5, triage)
+        convs = convs[:4]
     for name, fn in convs:
         before = len(calls_so_far())
         out = outcome(fn)
